@@ -30,6 +30,7 @@ import progast as P
 
 KNOWN_COLLAPSE = "after_loop:conditions-on-collapsed-guard"
 KNOWN_NO_LIMIT = "after_loop:limit-not-taken:integer-symbol-n"
+KNOWN_SUBS = "after_loop:get_moment_poly:single-term-coefficient"
 
 
 # ---- programs ---------------------------------------------------------------------------
@@ -113,6 +114,10 @@ def shapes(quick=True):
     out.append(({"types": [], "init": [asg("s", c(0)), asg("y", c(0))], "guard": eq("s", 0),
                  "body": [choice("s", [(F(1, 2), c(0)), (F(1, 6), c(1)), (F(1, 3), c(2))]), asg("y", ("add", v("y"), v("s")))]},
                 [("E", {"s": 1}), ("E", {"s": 2})] + more(("E", {"y": 1}), ("c", 2, {"s": 1})), "exit-state-dependent"))
+    # guard variable with values {0, 2}: the indicator polynomial of the negated guard is the single term _old/2
+    out.append(({"types": [], "init": [asg("x", c(0)), asg("y", c(0))], "guard": eq("x", 0),
+                 "body": [choice("x", [(F(1, 2), c(0)), (F(1, 2), c(2))]), asg("y", ("add", v("y"), c(1)))]},
+                [("E", {"y": 1})] + more(("E", {"x": 1})), "guard-values-0-2"))
     # divergent exit expectations
     out.append(({"types": [], "init": [asg("x", c(0)), asg("y", c(1))], "guard": eq("x", 0),
                  "body": [asg("y", ("mul", c(2), v("y"))), bern("x", F(1, 2))]},
@@ -788,11 +793,21 @@ def run(ctx):
                     bad = (n, got, want, ref_n)
                     break
             collapse = ex["src_agree"] is False
+
+            def single_term(part, which):
+                ts = part.get(which + "_terms") or []
+                return len(ts) == 1 and Fraction(ts[0][0]) != 1 and Fraction(part.get(which + "_const", "0")) == 0
+            subs_defect = any(single_term(part, "num") or single_term(part, "den") for part in gr.get("parts", {}).values())
+            subs_hit = False
             if bad is None:
                 stat["cond_seq_agree"] += 1
             else:
                 n, got, want, ref_n = bad
                 sig = f"cond-sequence:{text}:{gname}"
+                if subs_defect and got is not None and got.startswith("~") and "_old" in got:
+                    # program variables left in the value: the single-term polynomial was not substituted
+                    sig = KNOWN_SUBS
+                    subs_hit = True
                 if collapse and ex["event"] is not None:
                     # does Polar's sequence condition on the stored guard instead?
                     same = True
@@ -869,7 +884,7 @@ def run(ctx):
                 if gn and gd and gn[0] == "inf" and gd[0] == "const" and gd[1] > 0:
                     exp = ("inf", gn[1])
             far = [ratio_rows(ex["rows"], ms, g, n) for n in (N, (N + NF) // 2, NF)]
-            pending_b.append({"i": i, "gi": gi, "g": g, "gr": gr, "exp": exp, "far": far, "collapse": collapse and bad is not None,
+            pending_b.append({"i": i, "gi": gi, "g": g, "gr": gr, "exp": exp, "far": far, "collapse": (collapse and bad is not None) or subs_hit,
                               "text": text, "gname": gname})
     lthread.join()
     phases["limit_tasks_s(background)"] = lres_box.get("s")
@@ -880,6 +895,8 @@ def run(ctx):
         gr, exp, far, text, gname = b["gr"], b["exp"], b["far"], b["text"], b["gname"]
         pv = gr.get("after_loop_value", "")
         shown = gr.get("printed")
+        if b["collapse"]:
+            continue   # reported above with the sequence (known defect): the printed value is the limit of that sequence
         if pv.startswith("?"):
             stat["limit_not_taken"] += 1
             ctx.violation(KNOWN_NO_LIMIT, {"program_text": text, "goal": gname, "printed": shown},
@@ -902,8 +919,6 @@ def run(ctx):
             how = f"limit of the printed formula {gr.get('after_loop')} (taken with one integer symbol n)"
         else:
             how = f"printed value {shown}"
-        if b["collapse"]:
-            continue   # reported above with the sequence; the printed value is the limit of that sequence
         val = parse_val(pv)
         if exp is not None and exp[0] == "val":
             stat["limit_proved_shape"] += 1
